@@ -1413,6 +1413,14 @@ class Interp:
             rank = sd.fields[f].rank
             if a.ndim != rank:
                 self.problem("kernel-call", "kernel %s: field %s declared %dD but bound to %s of %d dims" % (sd.name, f, rank, a.describe(), a.ndim), node, ms)
+            # a compiled kernel accepts arrays of its declared element type only
+            decl = {"double": "float64", "float": "float32"}.get(sd.fields[f].dtype or "", sd.fields[f].dtype)
+            have = a.alloc.dtype.name
+            if a.part is not None and have.startswith("complex"):
+                have = {"complex64": "float32", "complex128": "float64"}.get(have, have)
+            if decl and decl.startswith(("float", "int", "complex")) and have != decl and have != "possibly_complex":
+                self.problem("kernel-call", "kernel %s: field %s is compiled for %s but bound to %s of element type %s (pystencils rejects the call)" % (
+                    sd.name, f, decl, a.describe(), have), node, ms)
         self.trace.append(Op("Launch", kernel=k, arrays=arrays, scalars=scalars, where=where,
                              stack=tuple(self.call_stack), node=node))
         return None
